@@ -346,6 +346,8 @@ def t1(s):
     r0 = ledger.t1_common(s)
     if r0:
         return r0
+    if ledger.is_str_slice(s):
+        return None
     if k == "index":
         r = ledger.guard_index_call(s)
         if r:
